@@ -482,6 +482,8 @@ def series(rng, pattern, n, scale=1):
         out = [0] * n
     elif pattern == "big":
         out = [rng.randint(2 ** 38, 2 ** 40) for _ in range(n)]
+    elif pattern == "negative":     # outside the theorem's range: ties c20_stats_outside_range (maximum stays 0)
+        out = [-rng.randint(1, 50) for _ in range(n)]
     else:
         out = [rng.randint(0, 100) for _ in range(n)]
     return [x * scale for x in out]
